@@ -3,6 +3,7 @@ This file contains the AquacropModel class that runs the simulation.
 """
 import time
 import datetime
+from copy import deepcopy
 import os
 import logging
 import warnings
@@ -221,7 +222,9 @@ class AquaCropModel:
         )
 
         # Compute additional variables
-        self._param_struct.CO2 = self.co2_concentration
+        # (the concentration of the season is written into this object while the
+        # model runs: it works on its own copy, the caller's object is left as given)
+        self._param_struct.CO2 = deepcopy(self.co2_concentration)
         self._param_struct = compute_variables(
             self._param_struct, self.weather_df, self._clock_struct
         )
